@@ -120,7 +120,11 @@ def oracle(lines, blocks, drained=False):
             break
         blk = blocks[i]
         if any(l.startswith("<<") for l in blk):
-            fail("crash", "step %d `%s`: %s" % (i, op, [l for l in blk if l.startswith("<<")][0][:300]))
+            msg = [l for l in blk if l.startswith("<<")][0]
+            # interpose.h reports the armed value as an int64_t count of nanoseconds (relative times beyond 292 years
+            # overflow there, which the sanitizer build stops at): a limit of the harness, never generated (FAR_REL); a
+            # kind of its own, so that shrinking a real failure cannot end on it
+            fail("harness-range" if ("interpose.h" in msg and "overflow" in msg) else "crash", "step %d `%s`: %s" % (i, op, msg[:300]))
             break
         w = op.split()
         step_start_clock = clock
@@ -177,7 +181,15 @@ def oracle(lines, blocks, drained=False):
                 if e[1] == "off":       # interpose.h: timerfd_settime with an all-zero it_value disarms the descriptor
                     fail("floor", "step %d `%s`: timerfd_settime was handed a zero it_value (disarms the descriptor)" % (i, op))
                 elif int(e[1]) < FLOOR * 1000:
-                    fail("floor", "step %d `%s`: timerfd armed for %s ns (< 100 us)" % (i, op, e[1]))
+                    # the alarm the harness recorded is exact in microseconds, the printed nanoseconds are exact modulo 2^64
+                    st0 = next((l for l in blk if l.startswith("st fd=a")), None)
+                    last = [l for l in blk if l.startswith("arm ")][-1] == l
+                    rel = int(st0.split()[1][4:]) - last_arm_clock if (st0 is not None and last) else 0
+                    if rel * 1000 >= (1 << 63) and (rel * 1000 - int(e[1])) % (1 << 64) < 1000:
+                        fail("harness-range", "step %d `%s`: relative time of %d us: beyond the 292 years harness/interpose.h can report"
+                             % (i, op, rel))
+                    else:
+                        fail("floor", "step %d `%s`: timerfd armed for %s ns (< 100 us)" % (i, op, e[1]))
             elif e[0] == "added":
                 nm = int(e[1])
                 t = timers.get(nm)
@@ -331,6 +343,34 @@ DELAYS = [-5000, -1, 0, 1, 50, 99, 100, 101, 150, 500, 1000, 1001, 5000, 20000, 
 ADV = [0, 1, 50, 99, 100, 101, 200, 499, 500, 501, 1000, 5000, 20000, 100000]
 EVERY = [100, 101, 250, 500, 1000, 3000, 20000, 150000]
 
+# delays / intervals around the widths of the C integer types a deadline computation may pass through (microseconds):
+# 2^31 us = 2147.483648 s and 2^32 us (an `int` / `unsigned` count of microseconds), an hour, a day, 30 days, a year,
+# ten years, 2^31 and 2^32 SECONDS (an `int` / `unsigned` count of seconds).  The harness runs under a virtual clock:
+# a jump of ten years costs nothing.
+S = 1000000
+FAR_DELAYS = [2147 * S, (1 << 31) - 1, 1 << 31, (1 << 31) + 1, 2148 * S, 3600 * S, (1 << 32) - 1, 1 << 32, 4295 * S,
+              86400 * S, 30 * 86400 * S, 365 * 86400 * S, 3650 * 86400 * S, ((1 << 31) - 1) * S, (1 << 31) * S,
+              (1 << 32) * S + 1]
+# absolute deadlines (offsets from BASE, microseconds): the last second of a 32-bit time_t (2038), of an unsigned one
+# (2106), of an int64_t count of NANOseconds since the epoch (2262), the year 2500, and the last representable
+# microseconds of an int64_t count (year 294247)
+FAR_AT = [((1 << 31) - 1) * S - BASE, (1 << 31) * S - BASE, (1 << 31) * S - BASE + 1,
+          ((1 << 32) - 1) * S - BASE, (1 << 32) * S - BASE + 250000,
+          9223372036 * S + 854775 - BASE, 9223372037 * S - BASE,
+          16725225600 * S - BASE,
+          (1 << 63) - 1 - BASE, (1 << 63) - 1 - BASE - 86400 * S]
+
+
+# harness/interpose.h reports the armed value as an int64_t count of nanoseconds: relative times stay below 290 years;
+# a deadline farther away is registered after the clock was moved towards it
+FAR_REL = 9000000000 * S
+
+
+def exact_up(d):
+    while not exact_us(d):
+        d += 1
+    return d
+
 
 def gen_case(rng, size, profile="c06", park=False):
     """one random program; `size` = number of top-level operations before the drain rounds"""
@@ -357,6 +397,18 @@ def gen_case(rng, size, profile="c06", park=False):
 
     def pick_mode(allow_invalid=True):
         r = rng.random()
+        if rng.random() < 0.04:
+            # far away: the delay / interval / deadline passes the width of an `int` of microseconds or of seconds
+            k = rng.choice(["after", "after", "every", "at"])
+            if k == "at":
+                o = rng.choice(FAR_AT[:7]) if rng.random() < 0.7 else off + rng.choice(FAR_DELAYS[:13])
+                if o - off > FAR_REL:
+                    o = off + FAR_REL
+                deadlines.append(o)
+                return "at %d" % o
+            d = exact_up(rng.choice(FAR_DELAYS[:13]) + rng.choice([0, 0, 1, 250000]))
+            deadlines.append(off + d)
+            return "%s %d" % (k, d)
         if r < 0.45:
             if abs_used and rng.random() < 0.35:
                 o = rng.choice(abs_used)          # an equal deadline
@@ -564,6 +616,127 @@ def gen_cancel_all(rng):
     return lines
 
 
+def gen_far(rng):
+    """delays, intervals and deadlines beyond the widths of the 32-bit types: a few near timers for company, one to
+    three far ones (from the loop thread, a foreign thread or a timer callback); the clock is moved to just before the
+    earliest far deadline (nothing may run: `early`), then onto it (it must run: `lost`), for a repeating timer through a
+    few more intervals; optionally the whole history starts after a jump of the clock to just before 2038 / 2106 / 2262 /
+    2500, so that relative delays cross those instants.  One history in seven plays at the end of the int64_t
+    microsecond range instead (absolute deadlines only: clock + delay must stay representable, see
+    addTime_exact_in_range)"""
+    lines = []
+    off = 0
+    nxt, mk = 1, 1
+
+    def near(rep=True):
+        nonlocal nxt
+        d = exact_up(rng.choice([100, 150, 1000, 5000, 50000, 250000]))
+        lines.append("add %s %d %s" % (rng.choice(["L", "L", "F"]), nxt,
+                                       rng.choice(["at %d" % (off + d), "after %d" % d] + (["every %d" % d] if rep else []))))
+        nxt += 1
+
+    def finish():
+        lines.append("tick 0")
+        for _ in range(DRAIN_ROUNDS):
+            lines.extend(["advance %d" % DRAIN, "iter", "iter"])
+        return lines
+
+    if rng.random() < 0.14:
+        # the end of the range: the clock within 290 years of the last representable microsecond
+        end = (1 << 63) - 1 - BASE
+        o = end - rng.choice([0, 0, 1, 86400 * S, 3650 * 86400 * S])
+        off = o - rng.choice([3600 * S, 3650 * 86400 * S, 250 * 365 * 86400 * S])
+        lines.extend(["advance %d" % off, "iter"])
+        for _ in range(rng.choice([0, 1, 2])):
+            near()
+        c = None
+        if rng.random() < 0.3:
+            c, nxt = nxt, nxt + 1
+            lines.append("script %d 1 add %d at %d" % (c, nxt, o))
+            lines.append("add L %d at %d" % (c, off + 1000))
+        else:
+            lines.append("add %s %d at %d" % (rng.choice(["L", "F"]), nxt, o))
+        n, nxt = nxt, nxt + 1
+        lines.extend(["iter", "advance 1000", "iter", "advance 300000", "iter"])
+        off += 301000
+        if o < end - 20 * S:
+            lines.extend(["advance %d" % (o - off - 1), "iter", "advance %d" % rng.choice([1, 2, 101]), "iter", "iter"])
+        elif rng.random() < 0.5:
+            lines.append("cancel %s %d %d" % (rng.choice(["L", "F"]), n, mk))
+            lines.append("iter")
+        return finish()
+
+    if rng.random() < 0.35:
+        tgt = rng.choice(FAR_AT[:8]) - rng.choice([0, 1, 5 * S, 1800 * S, 3 * 86400 * S])
+        lines += ["advance %d" % tgt, "iter"]
+        off = tgt
+    far = []        # (name, mode, deadline offset, interval or 0)
+    for _ in range(rng.choice([0, 1, 2])):
+        near()
+    for _ in range(rng.choice([1, 1, 2, 3])):
+        k = rng.choice(["after", "after", "every", "every", "at"])
+        if k == "at":
+            cands = [o for o in FAR_AT[:8] if o > off + 2000 * S]
+            o = rng.choice(cands) if (cands and rng.random() < 0.6) else off + rng.choice(FAR_DELAYS)
+            if o - off > FAR_REL:
+                a = o - off - rng.choice([3600 * S, 3650 * 86400 * S, 250 * 365 * 86400 * S])
+                lines += ["advance %d" % a, "iter"]
+                off += a
+                far = [(n_, m_, d_, 0) for (n_, m_, d_, i_) in far]     # earlier repeating ones are not followed any more
+            mode, dl, iv = "at %d" % o, o, 0
+        else:
+            d = exact_up(rng.choice(FAR_DELAYS) + rng.choice([0, 0, 0, 1, 250000, 999999]))
+            mode, dl, iv = "%s %d" % (k, d), off + d, (d if k == "every" else 0)
+        n = nxt
+        nxt += 1
+        r = rng.random()
+        if r < 0.3:
+            # registered from inside the callback of a near timer
+            c = nxt
+            nxt += 1
+            a = rng.choice([100, 1000, 20000])
+            lines.append("script %d 1 add %d %s" % (c, n, mode))
+            lines.append("add L %d at %d" % (c, off + a))
+            lines += ["advance %d" % a, "iter", "iter"]
+            off += a
+            if mode.split()[0] != "at":
+                dl += a
+        else:
+            lines.append("add %s %d %s" % ("L" if r < 0.75 else "F", n, mode))
+            if rng.random() < 0.7:
+                lines.append("iter")
+        far.append((n, mode, dl, iv))
+    # a little time passes: a deadline that wrapped into the past shows now
+    for a in rng.sample([0, 100, 101, 5000, 300000, 2 * S], 2):
+        lines += ["advance %d" % a, "iter"]
+        off += a
+    if rng.random() < 0.3:
+        near()
+    pending = sorted(far, key=lambda f: f[2])
+    steps = 0
+    while pending and steps < 6:
+        n, mode, dl, iv = pending.pop(0)
+        steps += 1
+        if rng.random() < 0.15:
+            who = rng.choice(["L", "F"])
+            lines.append("cancel %s %d %d" % (who, n, mk))
+            mk += 1
+            if who == "F":
+                lines.append("iter")
+            continue
+        if dl > off:
+            before = rng.choice([1, 100, 101, S, 695 * S, 2147 * S])   # ... also where a wrapped deadline would lie
+            if dl - before > off:
+                lines += ["advance %d" % (dl - before - off), "iter"]
+                off = dl - before
+            lines += ["advance %d" % (dl - off + rng.choice([0, 0, 1, 100, 150])), "iter", "iter"]
+            off = max(off, dl) + 150
+        if iv and steps < 5 and rng.random() < 0.8:
+            pending.append((n, mode, off + iv, iv))
+            pending.sort(key=lambda f: f[2])
+    return finish()
+
+
 # ----------------------------------------------------------------------------- running
 KINDS_C06 = ("early", "twice", "order", "disarmed", "late-arm", "lost", "floor", "thread")
 KINDS_C07 = ("after-cancel", "identity", "crash")
@@ -684,6 +857,14 @@ def correspondence(prop, ctx, replay, profile):
         cases = [gen_cancel_all(ctx.rng) for _ in range(40 if quick else 300)]
         ctx.count("cancel_all_cases", len(cases))
         r.run_cases(exe, cases, "cancel-all-then-expiry", drained=True, flavour=fl)
+        if r.stop():
+            return
+    # delays / intervals / deadlines beyond the 32-bit widths, under the virtual clock
+    for fl in flavours[:1] if quick else flavours:
+        exe = ctx.exe("timer_drv", fl)
+        cases = [gen_far(ctx.rng) for _ in range(150 if quick else 600)]
+        ctx.count("far_cases", len(cases))
+        r.run_cases(exe, cases, "far-delays-and-deadlines", drained=True, flavour=fl)
         if r.stop():
             return
     plan = {
